@@ -21,6 +21,9 @@ func (m *machine) registerReplacements() {
 		"bytes.Compare":      "BytesCompare",
 		"bytes.Equal":        "BytesEqual",
 
+		"github.com/ipfs/go-libipfs/files.NewBytesFile": "NewMemFile",
+		"github.com/ipfs/boxo/files.NewBytesFile":       "NewMemFile",
+
 		"context.Background":  "CtxBackground",
 		"context.TODO":        "CtxBackground",
 		"context.WithCancel":  "CtxWithCancel",
